@@ -89,7 +89,7 @@ class LinProver:
                     return self.lin(a, d + 1).scale(1 << b[1])
                 if self.same_shift(b):
                     return self.M(self.lin(a, d + 1))
-            if op == 'Shr' and self.same_shift(b):
+            if (op == 'Shr' and self.same_shift(b)) or (op == 'Div' and self.is_pow(b)):
                 return Lin(0, {('Q', self.key(self.lin(a, d + 1))): 1})
             if op == 'BitAnd':
                 for x, m in ((a, b), (b, a)):
